@@ -334,10 +334,13 @@ impl Policy for AuditPolicy {
             let c = OwnedCmd::from_wire(&w);
             self.run_rule(&w, facts, sink, place)?;
             facts.add_command(&c).map_err(|_| PolicyError::Write)?;
-            parent = Prior::Single(Address {
-                id: c.id,
-                max_cut: pa.max_cut.checked_add(1).ok_or(PolicyError::InternalError)?,
-            });
+            if place == Place::Action {
+                parent = Prior::Single(Address {
+                    id: c.id,
+                    max_cut: pa.max_cut.checked_add(1).ok_or(PolicyError::InternalError)?,
+                });
+            }
+            // off graph (sessions) every command names the same fixed session parent
         }
         Ok(())
     }
